@@ -70,6 +70,8 @@ struct Cfg {
     /// per-cluster override of cluster `b`
     bovr: Option<u64>,
     tls: bool,
+    /// accept_queue_timeout in seconds (0 = default, 60 s)
+    aqt: u32,
 }
 
 impl Cfg {
@@ -85,6 +87,7 @@ impl Cfg {
             evict: false,
             bovr: None,
             tls: false,
+            aqt: 0,
         };
         let mut it = op.split_whitespace();
         if it.next() != Some("fp-new") {
@@ -103,6 +106,7 @@ impl Cfg {
                 "zombie" => c.zombie = n()? as u32,
                 "evict" => c.evict = n()? != 0,
                 "tls" => c.tls = n()? != 0,
+                "aqt" => c.aqt = n()? as u32,
                 "bovr" => c.bovr = if v == "-" { None } else { Some(n()?) },
                 _ => return Err(format!("unknown field {kv}")),
             }
@@ -111,7 +115,7 @@ impl Cfg {
     }
     fn line(&self) -> String {
         format!(
-            "fp-new max={} perip={} front={} back={} req={} conn={} zombie={} evict={} bovr={} tls={}",
+            "fp-new max={} perip={} front={} back={} req={} conn={} zombie={} evict={} bovr={} tls={} aqt={}",
             self.max,
             self.perip,
             self.front,
@@ -121,7 +125,8 @@ impl Cfg {
             self.zombie,
             self.evict as u8,
             self.bovr.map(|x| x.to_string()).unwrap_or_else(|| "-".into()),
-            self.tls as u8
+            self.tls as u8,
+            self.aqt
         )
     }
 }
@@ -191,6 +196,8 @@ struct World {
     tcpd: SocketAddr,
     /// TCP listener of cluster `tn`, which starts without any backend
     tcpn: SocketAddr,
+    /// TCP listener of cluster `ts` (PROXY protocol v2 header sent to the backend)
+    tcps: SocketAddr,
     /// clusters that have a live (mock) backend right now
     live: BTreeSet<String>,
     https: Option<SocketAddr>,
@@ -284,6 +291,7 @@ impl World {
             connect_timeout: Some(cfg.conn),
             zombie_check_interval: if cfg.zombie > 0 { Some(cfg.zombie) } else { None },
             evict_on_queue_full: Some(cfg.evict),
+            accept_queue_timeout: if cfg.aqt > 0 { Some(cfg.aqt) } else { None },
             request_deadline: Duration::from_secs(6),
             log_file: Some(log_path.clone()),
             log_level: "error".into(),
@@ -294,8 +302,9 @@ impl World {
         let tcp = w.add_tcp_listener().map_err(e("tcp listener"))?;
         let tcpd = w.add_tcp_listener().map_err(e("tcp listener 2"))?;
         let tcpn = w.add_tcp_listener().map_err(e("tcp listener 3"))?;
+        let tcps = w.add_tcp_listener().map_err(e("tcp listener 4"))?;
         let mut be = BTreeMap::new();
-        for c in ["a", "b", "t", "tn", "td", "n"] {
+        for c in ["a", "b", "t", "tn", "td", "n", "ts"] {
             be.insert(c.to_string(), MockBackend::listen().map_err(e("backend"))?);
         }
         let dead = dead_addr().map_err(|x| format!("dead addr: {x}"))?;
@@ -312,6 +321,8 @@ impl World {
         w.add_backend("d", "d-0", dead.addr).map_err(e("backend d"))?;
         w.add_tcp_route(tcp, "t", be["t"].addr, None).map_err(e("tcp route"))?;
         w.add_tcp_route(tcpd, "td", dead.addr, None).map_err(e("tcp route 2"))?;
+        w.add_tcp_route(tcps, "ts", be["ts"].addr, Some(sozu_command_lib::proto::command::ProxyProtocolConfig::SendHeader))
+            .map_err(e("tcp route ts"))?;
         w.add_cluster(cluster("tn")).map_err(e("cluster tn"))?;
         w.add_tcp_frontend(tcpn, "tn").map_err(e("tcp frontend tn"))?;
         let https = if cfg.tls {
@@ -336,7 +347,8 @@ impl World {
             tcp,
             tcpd,
             tcpn,
-            live: ["a", "b", "t"].iter().map(|s| s.to_string()).collect(),
+            tcps,
+            live: ["a", "b", "t", "ts"].iter().map(|s| s.to_string()).collect(),
             https,
             be,
             _dead: dead,
@@ -1055,6 +1067,7 @@ impl World {
             "t" => self.tcp,
             "tn" => self.tcpn,
             "td" => self.tcpd,
+            "ts" => self.tcps,
             _ => return "bad-op".into(),
         };
         let exp = self.expect(key, cluster);
@@ -1088,7 +1101,14 @@ impl World {
             if let Some(mut bc) = self.be[cluster].try_accept() {
                 // the line follows the connection at once when it is ours
                 let _ = bc.read_until(b"\n", Duration::from_millis(400));
-                if bc.received == line.as_bytes() {
+                // cluster ts: the 28-byte PROXY v2 header comes first
+                let _ = bc.read_until(line.as_bytes(), Duration::from_millis(if cluster == "ts" { 400 } else { 0 }));
+                let good = if cluster == "ts" {
+                    bc.received.len() == 28 + line.len() && bc.received.ends_with(line.as_bytes()) && bc.received.starts_with(b"\r\n\r\n\0\r\nQUIT\n")
+                } else {
+                    bc.received == line.as_bytes()
+                };
+                if good {
                     found = Some(bc);
                 } else {
                     self.tag("stray-backend-conn");
@@ -1407,6 +1427,308 @@ impl World {
         }
     }
 }
+// ------------------------------------------------------------- H2 atoms --
+
+const H2_PREFACE: &[u8] = b"PRI * HTTP/2.0\r\n\r\nSM\r\n\r\n";
+
+fn h2_frame(ty: u8, flags: u8, sid: u32, payload: &[u8]) -> Vec<u8> {
+    let l = payload.len() as u32;
+    let mut v = vec![(l >> 16) as u8, (l >> 8) as u8, l as u8, ty, flags];
+    v.extend_from_slice(&sid.to_be_bytes());
+    v.extend_from_slice(payload);
+    v
+}
+
+/// GET https://localhost/<tag> with an `x-fp: <tag>` field (static-table
+/// references and plain literals only)
+fn h2_request_block(tag: &str) -> Vec<u8> {
+    let mut b = vec![0x82, 0x87, 0x44, (tag.len() + 1) as u8, b'/'];
+    b.extend_from_slice(tag.as_bytes());
+    b.extend_from_slice(&[0x41, 9]);
+    b.extend_from_slice(b"localhost");
+    b.extend_from_slice(&[0x00, 4]);
+    b.extend_from_slice(b"x-fp");
+    b.push(tag.len() as u8);
+    b.extend_from_slice(tag.as_bytes());
+    b
+}
+
+/// a minimal HTTP/2 client over TLS (ALPN h2)
+struct H2 {
+    tls: TlsStream,
+    buf: Vec<u8>,
+    dec: loona_hpack::Decoder<'static>,
+    status: BTreeMap<u32, u16>,
+    ended: BTreeSet<u32>,
+    rst: BTreeSet<u32>,
+    goaway: bool,
+    closed: bool,
+}
+
+impl H2 {
+    fn connect(addr: SocketAddr) -> Result<H2, String> {
+        let tls = tls_connect(addr, "localhost", &["h2"], T_IO).map_err(|e| e.to_string())?;
+        if tls.conn.alpn_protocol() != Some(b"h2") {
+            return Err("ALPN h2 not negotiated".into());
+        }
+        let _ = tls.sock.set_read_timeout(Some(Duration::from_millis(10)));
+        let mut c = H2 {
+            tls,
+            buf: vec![],
+            dec: loona_hpack::Decoder::new(),
+            status: BTreeMap::new(),
+            ended: BTreeSet::new(),
+            rst: BTreeSet::new(),
+            goaway: false,
+            closed: false,
+        };
+        let mut hello = H2_PREFACE.to_vec();
+        hello.extend(h2_frame(4, 0, 0, &[]));
+        if !c.send(&hello) {
+            return Err("cannot send the preface".into());
+        }
+        Ok(c)
+    }
+    fn send(&mut self, data: &[u8]) -> bool {
+        self.tls.write_all(data).and_then(|_| self.tls.flush()).is_ok()
+    }
+    /// read what is there (at most ~10 ms of waiting), digest complete frames
+    fn pump(&mut self) {
+        if self.closed {
+            return;
+        }
+        let mut tmp = [0u8; 16384];
+        match self.tls.read(&mut tmp) {
+            Ok(0) => self.closed = true,
+            Ok(n) => self.buf.extend_from_slice(&tmp[..n]),
+            Err(e) if matches!(e.kind(), std::io::ErrorKind::WouldBlock | std::io::ErrorKind::TimedOut | std::io::ErrorKind::Interrupted) => {}
+            Err(_) => self.closed = true,
+        }
+        loop {
+            if self.buf.len() < 9 {
+                return;
+            }
+            let l = ((self.buf[0] as usize) << 16) | ((self.buf[1] as usize) << 8) | self.buf[2] as usize;
+            if self.buf.len() < 9 + l {
+                return;
+            }
+            let (ty, flags) = (self.buf[3], self.buf[4]);
+            let sid = u32::from_be_bytes([self.buf[5], self.buf[6], self.buf[7], self.buf[8]]) & 0x7fff_ffff;
+            let payload: Vec<u8> = self.buf[9..9 + l].to_vec();
+            self.buf.drain(..9 + l);
+            match ty {
+                0 => {
+                    if flags & 1 != 0 {
+                        self.ended.insert(sid);
+                    }
+                    // give the windows back
+                    if !payload.is_empty() {
+                        let inc = (payload.len() as u32).to_be_bytes();
+                        let mut f = h2_frame(8, 0, 0, &inc);
+                        f.extend(h2_frame(8, 0, sid, &inc));
+                        let _ = self.send(&f);
+                    }
+                }
+                1 => {
+                    if let Ok(fields) = self.dec.decode(&payload) {
+                        for (n, v) in fields {
+                            if n == b":status" {
+                                if let Ok(st) = String::from_utf8_lossy(&v).parse::<u16>() {
+                                    self.status.insert(sid, st);
+                                }
+                            }
+                        }
+                    }
+                    if flags & 1 != 0 {
+                        self.ended.insert(sid);
+                    }
+                }
+                3 => {
+                    self.rst.insert(sid);
+                }
+                4 if flags & 1 == 0 => {
+                    let _ = self.send(&h2_frame(4, 1, 0, &[]));
+                }
+                6 if flags & 1 == 0 => {
+                    let _ = self.send(&h2_frame(6, 1, 0, &payload));
+                }
+                7 => self.goaway = true,
+                _ => {}
+            }
+        }
+    }
+    fn wait(&mut self, d: Duration, cond: impl Fn(&H2) -> bool) -> bool {
+        let until = Instant::now() + d;
+        loop {
+            self.pump();
+            if cond(self) {
+                return true;
+            }
+            if self.closed || Instant::now() >= until {
+                return cond(self);
+            }
+        }
+    }
+    /// the stream is over, one way or the other
+    fn done(&self, sid: u32) -> bool {
+        self.ended.contains(&sid) || self.rst.contains(&sid)
+    }
+}
+
+impl World {
+    /// One HTTP/2 connection with `n` concurrent streams to cluster `a`
+    /// (HTTPS listener, H1 backends: one backend connection per stream).
+    fn x_h2(&mut self, how: &str, n: usize) -> String {
+        let Some(addr) = self.https else { return "no-tls".into() };
+        let key = "x";
+        let n = n.clamp(1, 6);
+        let exp = self.expect(key, "a");
+        self.mon.dirty = true;
+        let mut c = match H2::connect(addr) {
+            Ok(c) => c,
+            Err(_) => return "handshake-failed".into(),
+        };
+        if how == "idle" {
+            let limit = Duration::from_secs(self.cfg.front as u64) + SLACK;
+            let t0 = Instant::now();
+            c.wait(limit, |c| c.closed);
+            if !c.closed {
+                self.alarm(
+                    "idle-session-not-reclaimed",
+                    format!("a silent HTTP/2 connection (preface and SETTINGS only) is still open {:?} after connecting (front_timeout {} s)", t0.elapsed(), self.cfg.front),
+                );
+                return "not-reclaimed".into();
+            }
+            return format!("reclaimed-goaway{}", c.goaway as u8);
+        }
+        let sids: Vec<u32> = (0..n as u32).map(|i| 1 + 2 * i).collect();
+        let mut tags = vec![];
+        let mut out = vec![];
+        for sid in &sids {
+            let tag = self.next_tag(key);
+            out.extend(h2_frame(1, 0x5, *sid, &h2_request_block(&tag)));
+            tags.push(tag);
+        }
+        if !c.send(&out) {
+            return "write-failed".into();
+        }
+        let ctx = format!("H2 {how} x{n} {}", tags[0]);
+        // where do the streams show up: at the backend, or answered by sozu?
+        let mut held: Vec<(u32, RawConn)> = vec![];
+        let until = Instant::now() + T_IO;
+        while Instant::now() < until && !c.closed {
+            if let Some(mut bc) = self.be["a"].try_accept() {
+                let mut ok = false;
+                if bc.read_some(Duration::from_millis(300)) == ReadEnd::Done {
+                    if let Ok(r) = read_http_message(&mut bc, T_IO) {
+                        if let Some(i) = tags.iter().position(|t| r.header("x-fp") == Some(t.as_str())) {
+                            held.push((sids[i], bc));
+                            ok = true;
+                        }
+                    }
+                }
+                if !ok {
+                    self.tag("stray-backend-conn");
+                }
+                continue;
+            }
+            c.pump();
+            let answered = sids.iter().filter(|s| c.status.contains_key(s) || c.rst.contains(s)).count();
+            if held.len() + answered >= n {
+                break;
+            }
+        }
+        self.reached_backend += held.len() as u64;
+        let refused = sids.iter().filter(|s| c.status.get(s) == Some(&429)).count();
+        if refused > 0 {
+            self.note(key, "a", exp, Gate::Refused, &ctx);
+        } else if !held.is_empty() {
+            self.note(key, "a", exp, Gate::Passed, &ctx);
+        }
+        if held.len() + refused < n && !c.closed && how != "bestall" {
+            let other: Vec<String> = sids.iter().filter_map(|s| c.status.get(s).map(|st| format!("{s}:{st}"))).collect();
+            if held.is_empty() && other.is_empty() && self.under_admission() {
+                self.alarm(
+                    "request-not-served",
+                    format!("{ctx}: {n} HTTP/2 request(s) got neither a backend connection nor an answer within {T_IO:?}"),
+                );
+            }
+        }
+        let o = match how {
+            "ok" | "goaway" => {
+                if how == "goaway" {
+                    // NO_ERROR, last stream id 0: we are leaving, finish what is open
+                    let _ = c.send(&h2_frame(7, 0, 0, &[0, 0, 0, 0, 0, 0, 0, 0]));
+                }
+                for (sid, bc) in held.iter_mut() {
+                    let _ = bc.write_all(&response_bytes(&format!("s{sid}"), 9), T_IO);
+                }
+                let hs: Vec<u32> = held.iter().map(|(s, _)| *s).collect();
+                let all = c.wait(T_IO, |c| hs.iter().all(|s| c.done(*s)));
+                let good = hs.iter().filter(|s| c.status.get(s) == Some(&200)).count();
+                format!("200x{good}/{n}{}", if all { "" } else if c.closed { "-closed" } else { "-incomplete" })
+            }
+            "abort" => {
+                drop(c);
+                let mut closed = 0;
+                for (_, bc) in held.iter_mut() {
+                    if matches!(bc.read_until_closed_or(T_IO), ReadEnd::Closed | ReadEnd::Reset) {
+                        closed += 1;
+                    }
+                }
+                let o = format!("aborted-backend-closed{closed}/{}", held.len());
+                self.remove_client(key);
+                return o;
+            }
+            "rst" => {
+                let mut o = String::from("rst");
+                if let Some((sid, bc)) = held.first_mut() {
+                    let _ = c.send(&h2_frame(3, 0, *sid, &[0, 0, 0, 8]));
+                    let end = bc.read_until_closed_or(T_IO);
+                    o = format!("rst-backend-{end:?}");
+                }
+                for (sid, bc) in held.iter_mut().skip(1) {
+                    let _ = bc.write_all(&response_bytes(&format!("s{sid}"), 9), T_IO);
+                }
+                let hs: Vec<u32> = held.iter().skip(1).map(|(s, _)| *s).collect();
+                c.wait(T_IO, |c| hs.iter().all(|s| c.done(*s)));
+                let good = hs.iter().filter(|s| c.status.get(s) == Some(&200)).count();
+                format!("{o}-200x{good}/{}", hs.len())
+            }
+            "beclose" => {
+                let hs: Vec<u32> = held.iter().map(|(s, _)| *s).collect();
+                for (_, bc) in held.drain(..) {
+                    bc.close();
+                }
+                c.wait(T_IO + Duration::from_secs(self.cfg.back as u64), |c| hs.iter().all(|s| c.done(*s) || c.status.contains_key(s)));
+                let st: Vec<String> = hs.iter().map(|s| c.status.get(s).map(|x| x.to_string()).unwrap_or_else(|| if c.rst.contains(s) { "rst".into() } else { "-".into() })).collect();
+                format!("beclose-{}{}", st.join("+"), if c.closed { "-closed" } else { "" })
+            }
+            "bestall" => {
+                let limit = Duration::from_secs(self.cfg.back as u64) + SLACK;
+                let hs: Vec<u32> = held.iter().map(|(s, _)| *s).collect();
+                let t0 = Instant::now();
+                let all = c.wait(limit, |c| c.closed || hs.iter().all(|s| c.done(*s) || c.status.contains_key(s)));
+                if !all && !hs.is_empty() {
+                    self.alarm(
+                        "stuck-session-not-reclaimed",
+                        format!("{ctx}: the backend never answered; {:?} later (back_timeout {} s) the HTTP/2 streams have neither an answer nor a reset and the connection is open", t0.elapsed(), self.cfg.back),
+                    );
+                }
+                let st: Vec<String> = hs.iter().map(|s| c.status.get(s).map(|x| x.to_string()).unwrap_or_else(|| if c.rst.contains(s) { "rst".into() } else { "-".into() })).collect();
+                format!("bestall-{}{}", st.join("+"), if c.closed { "-closed" } else { "" })
+            }
+            _ => "bad-op".into(),
+        };
+        drop(c);
+        for (_, mut bc) in held {
+            let _ = bc.read_until_closed_or(Duration::from_millis(300));
+        }
+        self.remove_client(key);
+        o
+    }
+}
+
 // ------------------------------------------- limits, storms, the footprint --
 
 impl World {
@@ -1494,7 +1816,7 @@ impl World {
 
     /// `n` clients at once against `max_connections`; `keep` served ones stay
     /// while fresh ones must be admitted again.
-    fn storm(&mut self, proto: &str, n: usize, keep: usize) -> String {
+    fn storm(&mut self, proto: &str, n: usize, keep: usize, queue_mode: bool) -> String {
         self.close_all();
         self.sync();
         let m = self.cfg.max;
@@ -1603,6 +1925,81 @@ impl World {
                 "accept-not-resumed",
                 format!("{proto} storm on an idle worker (max_connections = {m}): none of {n} client connections was served within 3 s"),
             );
+        }
+        if queue_mode {
+            // The excess stays connected while the served ones are held for longer
+            // than accept_queue_timeout; then the load drops to zero. Every excess
+            // connection must come to an end: served, or closed by sozu (the ones
+            // that waited too long in the accept queue are dropped) - none may be
+            // left connected and unanswered.
+            let hold = Duration::from_millis(if self.cfg.aqt > 0 { self.cfg.aqt as u64 * 1000 + 700 } else { 300 });
+            std::thread::sleep(hold);
+            let held_ids: BTreeSet<usize> = held.iter().map(|(i, _)| *i).collect();
+            for (i, mut bc) in held.into_iter() {
+                if let Some(mut c) = clients[i].take() {
+                    if http {
+                        let _ = bc.write_all(&response_bytes(&tags[i], 3), T_IO);
+                        let _ = read_http_message(&mut c, T_IO);
+                    } else {
+                        let _ = bc.write_all(b"pong\n", T_IO);
+                        let _ = c.read_until(b"pong\n", T_IO);
+                    }
+                    c.close();
+                    let _ = bc.read_until_closed_or(Duration::from_millis(500));
+                }
+            }
+            let mut pending: Vec<usize> = (0..n).filter(|i| !held_ids.contains(i) && clients[*i].is_some()).collect();
+            let (mut late_served, mut dropped) = (0, 0);
+            let until = Instant::now() + Duration::from_secs(10);
+            while !pending.is_empty() && Instant::now() < until {
+                while let Some(mut bc) = self.be[cluster].try_accept() {
+                    match read_tag(&mut bc).and_then(|t| tags.iter().position(|x| *x == t)) {
+                        Some(i) if pending.contains(&i) => {
+                            if let Some(mut c) = clients[i].take() {
+                                if http {
+                                    let _ = bc.write_all(&response_bytes(&tags[i], 3), T_IO);
+                                    let _ = read_http_message(&mut c, T_IO);
+                                } else {
+                                    let _ = bc.write_all(b"pong\n", T_IO);
+                                    let _ = c.read_until(b"pong\n", T_IO);
+                                }
+                                c.close();
+                            }
+                            pending.retain(|x| *x != i);
+                            late_served += 1;
+                            self.reached_backend += 1;
+                        }
+                        _ => self.tag("stray-backend-conn"),
+                    }
+                }
+                pending.retain(|i| match clients[*i].as_mut() {
+                    Some(c) => {
+                        if peer_closed(c) {
+                            dropped += 1;
+                            false
+                        } else {
+                            true
+                        }
+                    }
+                    None => false,
+                });
+                std::thread::sleep(Duration::from_millis(5));
+            }
+            if !pending.is_empty() {
+                self.alarm(
+                    "queued-connection-neither-served-nor-closed",
+                    format!("{proto} storm (max_connections = {m}, accept_queue_timeout {} s): 10 s after the load dropped to zero {} of the {} excess connections are still connected and unanswered", self.cfg.aqt, pending.len(), n - served1),
+                );
+            }
+            for c in clients.iter_mut() {
+                if let Some(c) = c.take() {
+                    c.close();
+                }
+            }
+            self.mon.dirty = true;
+            std::thread::sleep(Duration::from_millis(20));
+            self.drain_backends();
+            return format!("served={served1}/{n} held-for={hold:?} then served={late_served} dropped={dropped} limbo={}", pending.len());
         }
         // phase 2: the excess goes away, then all served but `keep`
         let held_ids: BTreeSet<usize> = held.iter().map(|(i, _)| *i).collect();
@@ -1916,7 +2313,7 @@ impl World {
         self.mon.dirty = false;
         let mut res = vec![];
         let tn_added = self.backend_op("add", "tn") == "added";
-        for cluster in ["tn", "a", "b", "t"] {
+        for cluster in ["tn", "a", "b", "t", "ts"] {
             let l = self.limit_of(cluster);
             if l == 0 || l > 4 {
                 continue;
@@ -1978,6 +2375,10 @@ impl World {
             if o != "200" {
                 return Err(format!("warm-up HTTPS: {o}"));
             }
+            let o = self.x_h2("ok", 1);
+            if o != "200x1/1" {
+                return Err(format!("warm-up HTTP/2: {o}"));
+            }
         }
         self.close_all();
         // stable idle snapshot
@@ -2011,6 +2412,31 @@ impl World {
         self.upgrades = 0;
         self.mon = Mon { global: self.cfg.perip, ..Default::default() };
         Ok(())
+    }
+
+    /// Every open client has been idle for longer than the zombie interval (or a
+    /// timeout): sozu must have closed them all.
+    fn reaped(&mut self) -> String {
+        let z = self.cfg.zombie.max(1) as u64;
+        let limit = Duration::from_secs(2 * z + 1) + SLACK;
+        let t0 = Instant::now();
+        let n0 = self.clients.len();
+        loop {
+            self.prune_closed();
+            if self.clients.is_empty() {
+                break;
+            }
+            if t0.elapsed() >= limit {
+                let left: Vec<String> = self.clients.keys().cloned().collect();
+                self.alarm(
+                    "idle-session-not-reclaimed",
+                    format!("clients {left:?} have been silent for {:?} and are still connected (zombie_check_interval {} s, front_timeout {} s)", t0.elapsed(), self.cfg.zombie, self.cfg.front),
+                );
+                return format!("not-reaped {}/{n0}", left.len());
+            }
+            std::thread::sleep(Duration::from_millis(20));
+        }
+        format!("reaped {n0}")
     }
 
     fn watchdog(&mut self, label: &str) {
@@ -2068,9 +2494,12 @@ impl World {
                 "ok" | "abort" | "hsonly" => self.s_get(arg(1)),
                 _ => "bad-op".into(),
             },
+            "x" => self.x_h2(arg(1), num(2)),
             "limit" => self.set_limit(num(1) as u64),
             "backend" => self.backend_op(arg(1), arg(2)),
-            "storm" => self.storm(arg(1), num(2), num(3)),
+            "storm" => self.storm(arg(1), num(2), num(3), false),
+            "stormq" => self.storm(arg(1), num(2), 0, true),
+            "reaped" => self.reaped(),
             "sleep" => {
                 std::thread::sleep(Duration::from_millis(num(1).min(5000) as u64));
                 "slept".into()
@@ -2179,9 +2608,9 @@ fn run_case_inner(ops: &[String]) -> CaseRun {
     for (i, op) in ops.iter().enumerate().skip(1) {
         let o = w.run_op(op, &op_bytes(op, i));
         let kind: Vec<&str> = op.split_whitespace().take(2).collect();
-        let kind = if matches!(kind.first().copied(), Some("h" | "t" | "s")) { kind.join(" ") } else { kind[..1].join(" ") };
+        let kind = if matches!(kind.first().copied(), Some("h" | "t" | "s" | "x")) { kind.join(" ") } else { kind[..1].join(" ") };
         w.tags.push(format!("op:{kind}"));
-        if matches!(op.split_whitespace().next(), Some("h" | "t" | "s")) {
+        if matches!(op.split_whitespace().next(), Some("h" | "t" | "s" | "x")) {
             let word = o.split(|c| c == ',' || c == ':').next().unwrap_or("").to_string();
             w.tags.push(format!("{kind} => {word}"));
         }
@@ -2305,7 +2734,7 @@ fn gen_mix_atom_raw(rng: &mut Rng, tls: bool, slow_left: &mut u32, open: &GenOpe
             ("get", 15), ("getclose", 5), ("post", 5), ("abortwait", 6), ("abortmid", 6), ("beclose", 4),
             ("bereset", 2), ("bepartial", 4), ("upgrade", 6), ("dead", 3), ("nobackend", 3), ("nohost", 3),
             ("bad", 3), ("partial-close", 3), ("partial-reset", 2), ("connect-close", 2), ("hend", 8),
-            ("topen", 6), ("tping", 3), ("tend", 8), ("tdead", 2), ("tls", if tls { 9 } else { 0 }), ("slow", 9),
+            ("topen", 6), ("tping", 3), ("tend", 8), ("tdead", 2), ("tls", if tls { 14 } else { 0 }), ("slow", 9),
         ],
     );
     match kind {
@@ -2323,7 +2752,7 @@ fn gen_mix_atom_raw(rng: &mut Rng, tls: bool, slow_left: &mut u32, open: &GenOpe
             Some(c) => format!("h {} {c}", rng.pick(&["close", "reset", "shutwr"])),
             None => format!("h get {c} {cl} 1"),
         },
-        "topen" => format!("t open {c}"),
+        "topen" => if rng.chance(1, 4) { format!("t open {c} ts") } else { format!("t open {c}") },
         "tping" => match pick_open(rng, &open.t) {
             Some(c) => format!("t ping {c}"),
             None => format!("t open {c}"),
@@ -2336,7 +2765,10 @@ fn gen_mix_atom_raw(rng: &mut Rng, tls: bool, slow_left: &mut u32, open: &GenOpe
             None => format!("t open {c}"),
         },
         "tdead" => format!("t dead {c}"),
-        "tls" => format!("s {}", rng.pick(&["ok", "ok", "abort", "hsonly", "close"])),
+        "tls" => match rng.below(9) {
+            0..=3 => format!("s {}", rng.pick(&["ok", "ok", "abort", "hsonly", "close"])),
+            _ => format!("x {} {}", rng.pick(&["ok", "ok", "abort", "rst", "beclose", "goaway"]), rng.range(1, 4)),
+        },
         _ => {
             if *slow_left == 0 {
                 return format!("h get {c} {cl} 1");
@@ -2344,12 +2776,12 @@ fn gen_mix_atom_raw(rng: &mut Rng, tls: bool, slow_left: &mut u32, open: &GenOpe
             *slow_left -= 1;
             let mut opts = vec!["h bestall", "h idle", "h partial-idle", "t idle"];
             if tls {
-                opts.extend(["s idle", "s garbage", "s hello-cut"]);
+                opts.extend(["s idle", "s garbage", "s hello-cut", "x idle 1", "x bestall 2"]);
             }
             let o = *rng.pick(&opts);
             if o == "h bestall" {
                 format!("{o} {c} {cl}")
-            } else if o.starts_with("s ") {
+            } else if o.starts_with("s ") || o.starts_with("x ") {
                 o.to_string()
             } else {
                 format!("{o} {c}")
@@ -2361,6 +2793,40 @@ fn gen_mix_atom_raw(rng: &mut Rng, tls: bool, slow_left: &mut u32, open: &GenOpe
 fn gen_case(rng: &mut Rng, thorough: bool) -> Vec<String> {
     let fam = rng.below(100);
     let mut ops = vec![];
+    if fam >= 92 {
+        // the zombie checker is the one that reclaims: timeouts far away, interval 1 s
+        let cfg = Cfg {
+            max: 50,
+            perip: rng.below(3),
+            front: 30,
+            back: 30,
+            req: 30,
+            conn: 1,
+            zombie: 1,
+            evict: false,
+            bovr: None,
+            tls: rng.chance(1, 3),
+            aqt: 0,
+        };
+        ops.push(cfg.line());
+        for round in 0..rng.range(1, 2) {
+            for _ in 0..rng.range(2, 5) {
+                let c = rng.below(5) + 5 * round;
+                ops.push(match rng.below(6) {
+                    0 | 1 => format!("h get {c} {} {}", rng.pick(&["a", "b"]), rng.range(1, 2)),
+                    2 => format!("t open {c}"),
+                    3 => format!("t open {c} ts"),
+                    4 => format!("h upgrade-client {c} a"),
+                    _ => format!("h get {c} a 1"),
+                });
+            }
+            ops.push(format!("sleep {}", rng.range(1100, 1700)));
+            ops.push("reaped".into());
+        }
+        ops.push("h get 0 a 1".into());
+        ops.push("t open 1".into());
+        return ops;
+    }
     if fam < 50 {
         let t = |rng: &mut Rng| if thorough { rng.range(1, 2) as u32 } else { 1 };
         let cfg = Cfg {
@@ -2374,6 +2840,7 @@ fn gen_case(rng: &mut Rng, thorough: bool) -> Vec<String> {
             evict: false,
             bovr: *rng.pick(&[None, None, Some(0), Some(2)]),
             tls: rng.chance(1, 2),
+            aqt: 0,
         };
         ops.push(cfg.line());
         let mut slow = if thorough { 4 } else { 2 };
@@ -2385,7 +2852,7 @@ fn gen_case(rng: &mut Rng, thorough: bool) -> Vec<String> {
                 ops.push("check".into());
             }
         }
-    } else if fam < 82 {
+    } else if fam < 80 {
         let cfg = Cfg {
             max: 50,
             perip: rng.below(4),
@@ -2397,6 +2864,7 @@ fn gen_case(rng: &mut Rng, thorough: bool) -> Vec<String> {
             evict: false,
             bovr: *rng.pick(&[None, None, Some(0), Some(1), Some(2)]),
             tls: rng.chance(1, 4),
+            aqt: 0,
         };
         ops.push(cfg.line());
         let n = rng.range(10, if thorough { 36 } else { 24 });
@@ -2430,7 +2898,7 @@ fn gen_case(rng: &mut Rng, thorough: bool) -> Vec<String> {
                 }
                 "topen" => {
                     topen.insert(c);
-                    ops.push(format!("t open {c}"))
+                    ops.push(if rng.chance(1, 4) { format!("t open {c} ts") } else { format!("t open {c}") })
                 }
                 "tclose" => match pick_open(rng, &topen) {
                     Some(c) => {
@@ -2445,7 +2913,10 @@ fn gen_case(rng: &mut Rng, thorough: bool) -> Vec<String> {
                 "upgrade" => ops.push(format!("h upgrade-{} {c} {cl}", rng.pick(&["client", "backend"]))),
                 "abort" => ops.push(format!("h {} {c} {cl}", rng.pick(&["abortwait-close", "abortmid-reset", "beclose", "bepartial"]))),
                 "default" => ops.push(format!("h {} {c}", rng.pick(&["dead", "nobackend", "nohost", "bad"]))),
-                "tls" => ops.push(format!("s {}", rng.pick(&["ok", "abort"]))),
+                "tls" => ops.push(match rng.below(3) {
+                    0 => format!("s {}", rng.pick(&["ok", "abort"])),
+                    _ => format!("x {} {}", rng.pick(&["ok", "ok", "abort", "rst"]), rng.range(1, 4)),
+                }),
                 "getclose" => ops.push(format!("h getclose {c} {cl}")),
                 // clusters whose backend comes and goes
                 "nb" => ops.push(match rng.below(8) {
@@ -2507,6 +2978,7 @@ fn gen_case(rng: &mut Rng, thorough: bool) -> Vec<String> {
             evict: rng.chance(1, 3),
             bovr: None,
             tls: false,
+            aqt: if rng.chance(1, 3) { 1 } else { 0 },
         };
         ops.push(cfg.line());
         let rounds = rng.range(1, if thorough { 3 } else { 2 });
@@ -2517,7 +2989,11 @@ fn gen_case(rng: &mut Rng, thorough: bool) -> Vec<String> {
             }
             let proto = *rng.pick(&["http", "http", "tcp"]);
             let n = max + rng.range(1, 8) as usize;
-            ops.push(format!("storm {proto} {n} {}", rng.below(max as u64)));
+            if rng.chance(1, 3) {
+                ops.push(format!("stormq {proto} {n}"));
+            } else {
+                ops.push(format!("storm {proto} {n} {}", rng.below(max as u64)));
+            }
         }
         ops.push("h get 0 a 2".into());
     }
@@ -2543,7 +3019,8 @@ fn corpus() -> Vec<Vec<String>> {
             "h upgrade-client 0 a", "h upgrade-backend 1 b", "h dead 0", "h nobackend 1", "h nohost 2", "h bad 3",
             "h partial-close 0", "h partial-reset 1", "h connect-close 2", "t open 0", "t ping 0", "t shutwr-client 0",
             "t open 1", "t shutwr-backend 1", "t open 2", "t reset-backend 2", "t open 3", "t reset-client 3", "t dead 0",
-            "s ok", "s abort", "s hsonly", "s close", "check", "h bestall 0 a", "h idle 1", "h partial-idle 2",
+            "s ok", "s abort", "s hsonly", "s close", "x ok 3", "x abort 2", "x rst 3", "x beclose 2", "x goaway 2",
+            "check", "x bestall 2", "x idle 1", "h bestall 0 a", "h idle 1", "h partial-idle 2",
             "t idle 0", "s idle", "s garbage", "s hello-cut"]),
         // keep-alive connection left idle: front_timeout reclaims it, zombie checker on
         v(&["fp-new max=40 perip=0 front=1 back=1 req=1 conn=1 zombie=2 evict=0 bovr=- tls=0",
@@ -2557,6 +3034,13 @@ fn corpus() -> Vec<Vec<String>> {
             "t open 0 td", "t open 1", "backend add td", "t open 4 td", "backend remove td", "limit 2",
             "t open 0 td", "t open 1 td", "h get 2 a 1", "h get 3 a 1", "backend add td", "t open 0 td", "t open 1 td",
             "t open 2 td"]),
+        // the zombie checker reclaims idle sessions (timeouts far away), slots come back
+        v(&["fp-new max=50 perip=1 front=30 back=30 req=30 conn=1 zombie=1 evict=0 bovr=- tls=0 aqt=0",
+            "h get 0 a 1", "h get 1 b 1", "t open 0", "t open 1 ts", "h upgrade-client 2 b", "sleep 1500", "reaped",
+            "h get 3 a 1", "t open 3", "t open 4 ts"]),
+        // connections that waited in the accept queue for longer than accept_queue_timeout
+        v(&["fp-new max=3 perip=0 front=10 back=10 req=10 conn=1 zombie=0 evict=0 bovr=- tls=0 aqt=1",
+            "stormq http 9", "stormq tcp 8", "h get 0 a 1"]),
         // eviction when the accept queue is full
         v(&["fp-new max=3 perip=0 front=10 back=10 req=10 conn=1 zombie=0 evict=1 bovr=- tls=0",
             "storm http 7 1", "storm tcp 6 0", "h get 0 a 1"]),
@@ -2770,7 +3254,7 @@ fn real_main() {
         for t in &run.tags {
             *dist.entry(t.clone()).or_insert(0) += 1;
         }
-        let fam = if ops[0].contains("front=30") { "perip" } else if ops[0].contains("front=10") { "storm" } else { "mix" };
+        let fam = if ops[0].contains("zombie=1") { "zombie" } else if ops[0].contains("front=30") { "perip" } else if ops[0].contains("front=10") { "storm" } else { "mix" };
         *dist.entry(format!("family:{fam}")).or_insert(0) += 1;
         *dist.entry(format!("len:{}", (ops.len() / 8) * 8)).or_insert(0) += 1;
         if run.nontrivial {
